@@ -35,6 +35,25 @@ def verif_files():
 def cache_key(*extra):
     return hashlib.sha256((files_hash(repo_files()) + files_hash(verif_files()) + '|'.join(map(str, extra))).encode()).hexdigest()[:24]
 
+def prune_cache(keep=48, min_age=3 * 3600):
+    """results are cached per source state; drop all but the newest `keep` entries once they are older than `min_age`"""
+    cdir = os.path.join(OUT, 'cache')
+    try:
+        ents = sorted(((os.path.getmtime(os.path.join(cdir, n)), n) for n in os.listdir(cdir)), reverse=True)
+    except OSError:
+        return
+    now = time.time()
+    for mt, n in ents[keep:]:
+        if now - mt > min_age:
+            pth = os.path.join(cdir, n)
+            if os.path.isdir(pth):
+                shutil.rmtree(pth, ignore_errors=True)
+            else:
+                try:
+                    os.unlink(pth)
+                except OSError:
+                    pass
+
 def build_harness():
     os.makedirs(TMP, exist_ok=True)
     lock = os.path.join(HARNESS, 'Cargo.lock')
